@@ -131,19 +131,19 @@ Fixpoint destroy_chain (ls : list cls) (id : Z) (s : st) : st * option exn :=
 
 (* ------------------------------------------------------------------ _create *)
 (* SQLObject._create + _SO_finishCreate for the class k alone: defaults,
-   validation of the own column, unknown keywords, INSERT.  `idopt` is the id
+   unknown keywords, validation of the own column, INSERT.  `idopt` is the id
    handed down by InheritableSQLObject._create (the parent's id). *)
 Definition own_create (k : cls) (idopt : option Z) (tag : option cls) (a : cargs) (unk : bool) (s : st) : exn + (st * Z) :=
   if required k && is_omit (arg_of a k) then inl EType
+  else if unk then inl EType          (* refused before the own values are validated (main.py set, creating branch) *)
   else match validate (arg_of a k) with
        | inl e => inl e
        | inr v =>
-           if unk then inl EType
-           else let id := match idopt with Some i => i | None => seq s + 1 end in
-                match sql_insert k id v tag s with
-                | inl e => inl e
-                | inr s' => inr (match idopt with Some _ => s' | None => set_seq s' id end, id)
-                end
+           let id := match idopt with Some i => i | None => seq s + 1 end in
+           match sql_insert k id v tag s with
+           | inl e => inl e
+           | inr s' => inr (match idopt with Some _ => s' | None => set_seq s' id end, id)
+           end
        end.
 
 (* InheritableSQLObject._create; ls = the class, then its ancestors.  `tag`
